@@ -277,7 +277,7 @@ def crash_point_sweep(res: Result, tier: str) -> dict[str, Any]:
                 jobs.append((scn, ((k, c),)))
         # pairs: second cause within the next 3 (quick) / at every later (thorough) callback
         span = 3 if tier == "quick" else 12
-        pair_causes = ("force", "disc", "cancel", "eof", "c:DR", "c:BAD", "wf:sync", "c:DR+ST", "reent", "c:ST+ST")
+        pair_causes = ("force", "disc", "cancel", "eof", "c:DR", "c:BAD", "wf:sync", "wf:async", "c:DR+ST", "reent", "c:ST+ST")
         if tier == "quick" and scn not in ("plain-login-disconnect", "noise-login-disconnect", "plain-onechunk-peerclose"):
             continue
         for k in range(b["callbacks"] + 1):
